@@ -278,7 +278,7 @@ def run(tier, replay):
                 env, 400)))
         # (b) every (model state, call) pair on live objects
         jobs.append(("edge-cover", ex.submit(run_harness, exes["plain"],
-                                             ["--graph", gpath, "--cover", "--budget", "60", "--maxlen", "200", "--workdir", wd], env, 300)))
+                                             ["--graph", gpath, "--cover", "--budget", "100", "--maxlen", "200", "--workdir", wd], env, 300)))
         # (c) every call sequence up to the depth (sharded); the small depths first, for short witnesses
         for d in (2, 3, 4):
             jobs.append(("dfs-depth-%d" % d, ex.submit(run_harness, exes["plain"],
@@ -380,5 +380,5 @@ def run(tier, replay):
         "representative names are looked up in the real catalogues: %s" % json.dumps(names, sort_keys=True),
         "named deviations allowed by the specification: KeepPrivate (after DestroyConfiguration), KeepOld, SeedZero, deferred "
         "refusal of an explicitly applied configuration to the first request of primaries",
-        "gA modes (21-24, need a dataset), the rectangular MDL cut, invalid MDL labels and exhausted vertex generators are outside the model"]
+        "gA modes (21-24, need a dataset), invalid MDL labels and exhausted vertex generators are outside the model"]
     return ck.finish()
